@@ -60,6 +60,22 @@ func typeKeyName(t types.Type) string {
 	return mangle(s)
 }
 
+// dtName: the datatype name of a named type; instantiations are named after the sorts of their type
+// arguments (so that a generic callee inlined under a type substitution agrees with its caller).
+func (fc *FuncCtx) dtName(x *types.Named) string {
+	base := x.Obj().Name()
+	if x.Obj().Pkg() != nil {
+		base = x.Obj().Pkg().Name() + "_" + base
+	}
+	if x.TypeArgs() == nil || x.TypeArgs().Len() == 0 {
+		return mangle(base)
+	}
+	for i := 0; i < x.TypeArgs().Len(); i++ {
+		base += "_" + mangle(fc.sortOf(x.TypeArgs().At(i)).SMT())
+	}
+	return mangle(base)
+}
+
 // unionCases returns the case struct types of a union interface (marker method <Name>_Union), sorted by name.
 func unionCases(n *types.Named) []*types.Named {
 	iface, ok := n.Underlying().(*types.Interface)
@@ -206,7 +222,7 @@ func (fc *FuncCtx) sortOf(t types.Type) *Sort {
 			if cases == nil {
 				return sc.declUnint("Any")
 			}
-			name := typeKeyName(x)
+			name := fc.dtName(x)
 			if s, ok := sc.named[name]; ok {
 				return s
 			}
@@ -229,7 +245,7 @@ func (fc *FuncCtx) sortOf(t types.Type) *Sort {
 				}
 				st := ct.Underlying().(*types.Struct)
 				cname := c.Obj().Name()
-				if name != x.Obj().Name() {
+				if x.TypeArgs() != nil && x.TypeArgs().Len() > 0 {
 					cname = name + "__" + c.Obj().Name()
 				}
 				ctor := dtCtor{Name: cname, GoType: ct}
@@ -256,7 +272,7 @@ func (fc *FuncCtx) sortOf(t types.Type) *Sort {
 				}
 				return fc.sortOf(ut)
 			}
-			name := typeKeyName(x)
+			name := fc.dtName(x)
 			if s, ok := sc.named[name]; ok {
 				return s
 			}
